@@ -16,6 +16,11 @@ def c18Show (r : Option Bytes) : String :=
   | none => "none"
   | some b => showBytes b
 
+def c18Kind (s : String) : Option C18.LayerKind :=
+  if s = "hp" then some .httpProxy else if s = "hup" then some .httpUpstreamProxy else if s = "mode" then some .otherMode
+  else if s = "ctls" then some .clientTls else if s = "stls" then some .serverTls else if s = "http" then some .http
+  else if s = "tcp" then some .other else none
+
 def c18Step (line : String) : String :=
   match fields line with
   | ["cb", c, s, h, o] =>
@@ -38,6 +43,10 @@ def c18Step (line : String) : String :=
       let r := C18.nestedSession h oo io prefs eager
       c18Show r.1 ++ " " ++ c18Show r.2.1 ++ " " ++ c18Show r.2.2
     | _, _, _, _, _ => "bad-op"
+  | ["pin", kinds, ca] =>
+    match (if kinds = "nil" then some [] else (kinds.splitOn ",").mapM c18Kind), c18Opt ca with
+    | some ks, some ca => c18Show (C18.startClientPin ks ca)
+    | _, _ => "bad-op"
   | ["srv", h, preset, co] =>
     match c18Bool h, c18List preset, c18List co with
     | some h, some p, some co =>
